@@ -209,51 +209,81 @@ def check_container_skipped(mon, case, obs, pred, node, prefix):
 # C03 invariants on live model objects
 # ---------------------------------------------------------------------------
 
-def check_rollup_live(mon, lab, obs, case=None, prefix="rollup"):
-    """Invariant over the ACTUAL children of every container after a run."""
-    Status = lab.Status
+def rollup_checks(kind, st, ks, own_hook_failed, own_cleanup_failed=False, api_skipped=False):
+    """The C03 invariant as a pure function: yields (monitor, ok) for a container of *kind* with
+    status *st* whose ACTUAL children have statuses *ks* (status names)."""
+    if own_hook_failed:
+        yield "own_hook_error", st == "hook_error"
+        return
+    if own_cleanup_failed:
+        yield "own_cleanup_error", st == "error"
+        return
+    if not ks:
+        return      # childless: out of scope
+    if api_skipped:
+        # user code called .skip() on this element while it was running (public API): it carries the status the
+        # user asked for ("skip the remaining parts"), the roll-up function is not what decides it
+        yield "api_skipped_is_skipped_or_failed", st in ("skipped", "failed", "error")
+        return
+    has_err = any(k in ERROR_CLASS for k in ks)
+    has_fail = any(k == "failed" for k in ks)
+    if has_err and not has_fail and kind == "scenario" and \
+            all(k in UNTESTED_CLASS or k == "undefined" for k in ks):
+        # nothing was executed (dry-run) and the only error-class children are undefined steps: the two rules
+        # "undefined inside makes it error" and "nothing executed is untested" collide -- either is accepted
+        yield "dry_run_undefined_untested_or_error", st in ("untested", "error")
+        return
+    if has_err and not has_fail:
+        yield "error_inside_makes_error", st == "error"
+    elif has_fail and not has_err:
+        yield "failed_inside_makes_failed", st == "failed"
+    elif has_fail and has_err:
+        yield "failed_or_error", st in ("failed", "error")
+    else:
+        if st == "skipped":
+            yield "skipped_only_if_all_skipped", all(k == "skipped" for k in ks)
+        if all(k == "skipped" for k in ks):
+            yield "all_skipped_is_skipped", st == "skipped"
+        if st in PASSED_LIKE:
+            nonsk = [k for k in ks if k != "skipped"]
+            yield "passed_only_if_all_nonskipped_passed", bool(nonsk) and all(k in PASSED_LIKE for k in nonsk)
+        if all(k in UNTESTED_CLASS for k in ks):
+            yield "nothing_executed_is_untested", st in UNTESTED_CLASS
+        if any(k in UNTESTED_CLASS for k in ks):
+            yield "never_passed_with_untested_child", st not in PASSED_LIKE
+        if all(k in PASSED_LIKE or k == "skipped" for k in ks) and any(k in PASSED_LIKE for k in ks):
+            yield "all_passed_is_passed", st == "passed"
+        if not any(k in UNTESTED_CLASS for k in ks):
+            # (a container cut short after some passed children -- [passed.., untested..] -- is only
+            #  demanded to be "not passed, not skipped")
+            yield "no_failure_without_cause", st not in ERROR_CLASS and st != "failed"
 
-    def cls(s):
-        return s.name
+
+def check_rollup_live(mon, lab, obs, case=None, prefix="rollup", cleanup_failed=(), features=None):
+    """Invariant over the ACTUAL children of every container after (or during) a run."""
+
+    def sname(x):
+        try:
+            return x.status.name
+        except Exception as ex:
+            return "EXCEPTION %s" % type(ex).__name__
 
     def check_container(c, kind, children, own_hook_failed):
-        st = c.status.name
-        ks = [x.status.name for x in children]
+        st = sname(c)
+        ks = [sname(x) for x in children]
+        mon.check(prefix + ".status_readable", not st.startswith("EXCEPTION"),
+                  lambda: dict(container=c.name, kind=kind, status=st, children=ks))
         info = lambda: dict(container=c.name, kind=kind, status=st, children=ks, hook_failed=own_hook_failed,
                             case=(strip_case(case) if case else None),
                             features=(case_texts(case) if case else None))
         mon.seen("%s_status" % kind, st)
-        mon.seen("child_tuple", "%s:%s" % (kind, ",".join(sorted(set(ks)))))
-        if own_hook_failed:
-            mon.check(prefix + ".own_hook_error", st == "hook_error", info)
-            return
-        if st in ("error",) and getattr(c, "_bvm_cleanup_error", False):
-            return
-        if not ks:
-            return      # childless: out of scope
-        has_err = any(k in ERROR_CLASS for k in ks)
-        has_fail = any(k == "failed" for k in ks)
-        if has_err and not has_fail:
-            mon.check(prefix + ".error_inside_makes_error", st == "error", info)
-        elif has_fail and not has_err:
-            mon.check(prefix + ".failed_inside_makes_failed", st == "failed", info)
-        elif has_fail and has_err:
-            mon.check(prefix + ".failed_or_error", st in ("failed", "error"), info)
-        else:
-            if st == "skipped":
-                mon.check(prefix + ".skipped_only_if_all_skipped", all(k == "skipped" for k in ks), info)
-            if all(k == "skipped" for k in ks):
-                mon.check(prefix + ".all_skipped_is_skipped", st == "skipped", info)
-            if st in PASSED_LIKE:
-                nonsk = [k for k in ks if k != "skipped"]
-                mon.check(prefix + ".passed_only_if_all_nonskipped_passed",
-                          bool(nonsk) and all(k in PASSED_LIKE for k in nonsk), info)
-            if all(k in UNTESTED_CLASS for k in ks):
-                mon.check(prefix + ".nothing_executed_is_untested", st in UNTESTED_CLASS, info)
-            if any(k in UNTESTED_CLASS for k in ks):
-                mon.check(prefix + ".never_passed_with_untested_child", st not in PASSED_LIKE, info)
-            if all(k in PASSED_LIKE or k == "skipped" for k in ks) and any(k in PASSED_LIKE for k in ks):
-                mon.check(prefix + ".all_passed_is_passed", st == "passed", info)
+        mon.seen("child_set", "%s:%s" % (kind, ",".join(sorted(set(ks)))))
+        api_skipped = kind == "scenario" and bool(getattr(c, "should_skip", False)) and \
+            any(k not in ("skipped", "untested") for k in ks)
+        if api_skipped:
+            mon.count(prefix + ".api_skipped_scenarios")
+        for name, ok in rollup_checks(kind, st, ks, own_hook_failed, c.name in cleanup_failed, api_skipped):
+            mon.check(prefix + "." + name, ok, info)
 
     def scen(s):
         steps = list(s.all_steps)
@@ -272,5 +302,5 @@ def check_rollup_live(mon, lab, obs, case=None, prefix="rollup"):
                 scen(it)
         check_container(c, kind, list(c.run_items), c.hook_failed)
 
-    for f in obs.features:
+    for f in (features if features is not None else obs.features):
         walk(f, "feature")
